@@ -526,6 +526,10 @@ func GenC04(seed uint64) *Plan {
 	}
 	nd := g.between(2, 3)
 	var first *model.Decl
+	// decided first: an integration that has reached its stop is finished
+	// (C06: writes nothing afterwards) and does not follow later replacements,
+	// so stops are only configured on histories without replaced blocks
+	withReorgs := g.chance(60)
 	for i := 0; i < nd; i++ {
 		src := p.Sources[g.R.IntN(len(p.Sources))]
 		start := uint64(g.between(1, src.InitLen-1))
@@ -535,6 +539,17 @@ func GenC04(seed uint64) *Plan {
 			d = cloneDecl(first)
 			d.Name = fmt.Sprintf("ig%d", i)
 			d.Sources = []model.SrcRef{{Name: src.Name, Start: start}}
+			if !withReorgs && g.chance(60) && len(first.Sources) > 0 {
+				// same source and start as the first integration but a stop
+				// inside its first batches: the two ask the shared caches for
+				// ranges with the same start and different lengths
+				fs := first.Sources[0]
+				for _, sp2 := range p.Sources {
+					if sp2.Name == fs.Name {
+						d.Sources = []model.SrcRef{{Name: fs.Name, Start: fs.Start, Stop: fs.Start + uint64(g.between(0, 2*max(sp2.Batch, 2)))}}
+					}
+				}
+			}
 			if g.chance(50) {
 				for k := range d.Block {
 					if d.Block[k].Name == "log_addr" && d.Block[k].Filter != nil {
@@ -564,7 +579,7 @@ func GenC04(seed uint64) *Plan {
 	}
 	g.ensureEvents(p)
 	g.transientFaults(p)
-	if g.chance(60) {
+	if withReorgs {
 		g.reorgFaults(p, g.between(1, 4))
 		// reorg workloads need hashed plans everywhere, otherwise convergence is outside the property
 		for _, d := range p.Decls {
